@@ -530,6 +530,22 @@ func Explore(fn *ssa.Function, b *ssa.BasicBlock, idx int, pred *ssa.BasicBlock,
 			if h.Instr != nil {
 				h.Instr(st, x)
 			}
+		case *ssa.TypeAssert:
+			// v, ok := err.(T) evaluated ahead of its use ("_, missing := err.(ChunkMissing)" hoisted
+			// before a switch): record ok now, from what is known about the error's class here
+			if x.CommaOk && !types.IsInterface(x.AssertedType) {
+				delete(st.V, tkey{x, 1})
+				if subj := st.Eval(x.X); subj.Class != "" {
+					if subj.Class == ClsNil {
+						st.V[tkey{x, 1}] = Val{B: BFalse}
+					} else {
+						st.V[tkey{x, 1}] = Val{B: b2(subj.Class == classOfType(x.AssertedType))}
+					}
+				}
+			}
+			if h.Instr != nil {
+				h.Instr(st, x)
+			}
 		case *ssa.Extract:
 			if tv, ok := st.V[tkey{x.Tuple, x.Index}]; ok {
 				st.V[x] = tv
